@@ -28,9 +28,9 @@ def bounds(tier):
 
 def menu_names(tier):
     m = ["ParamsEd25519", "Params1024", "Params2048", "Params3072", "ParamsEd25519:M'", "ParamsEd25519:N'", "ParamsEd25519:S'",
-         "ParamsEd25519:M<->N", "Params1024:S'", "T23", "T29", "T23:M'", "T23:N'", "T23:S'", "E109"]
+         "ParamsEd25519:M<->N", "Params1024:S'", "Params1024:MN|", "T23", "T29", "T23:M'", "T23:N'", "T23:S'", "T23:MN|", "E109"]
     if tier != "quick":
-        m += ["Params2048:N'", "Params3072:M'", "T29:S'", "E109:M'", "E37", "T11", "T31"]
+        m += ["Params2048:N'", "Params3072:M'", "T29:S'", "E109:M'", "E37", "T11", "T31", "ParamsEd25519:MN|", "T29:MN|"]
     return m
 
 
@@ -52,6 +52,23 @@ def variant(name):
             inst = T.reseeded(base, N=T.alt_seed(base, s[1]))
         elif v == "S'":
             inst = T.reseeded(base, S=T.alt_seed(base, s[2]))
+        elif v == "MN|":
+            # same concatenation M_seed + N_seed, boundary moved: both elements differ although the joined seeds are equal
+            inst = None
+            joined = s[0] + s[1]
+            for k in list(range(len(joined), -1, -1)):
+                m_, n_ = joined[:k], joined[k:]
+                if (m_, n_) == (s[0], s[1]):
+                    continue
+                try:
+                    em, en = base.ref.arbitrary(m_), base.ref.arbitrary(n_)
+                except Exception:
+                    continue
+                if em != base.rp.M and en != base.rp.N:
+                    inst = T.reseeded(base, M=m_, N=n_)
+                    break
+            if inst is None:
+                raise T.HarnessError("no boundary-shifted seed pair is well-defined on " + bname)
         else:
             inst = T.reseeded(base, M=s[1], N=s[0])
         inst.name = name
@@ -85,8 +102,10 @@ def _task(task):
                 acc.note("cannot save state for %s %s (judged by C03/C08)" % (n1, c1))
                 continue
             w = R1.pw_scalar(pw)
-            valid = C.inbound_menu(i1, c1, w, x)[0][1]
-            refkey = RS.finish(rp1, c1, pw, w, ids, x, valid)
+            xo = T.read_scalar(i1, s)
+            xo = x if xo is None else xo
+            valid = C.inbound_menu(i1, c1, w, xo, own=m[1])[0][1]
+            refkey = RS.finish(rp1, c1, pw, w, ids, xo, valid)
             for n2 in names2:
                 try:
                     i2 = variant(n2)
@@ -176,7 +195,10 @@ def run(tier, seed):
         try:
             variant(n)
         except Exception as e:
-            acc.degrade("%s unavailable: %s: %s" % (n, type(e).__name__, e))
+            if n.endswith("MN|") and isinstance(e, T.HarnessError):
+                acc.note("%s: %s" % (n, e))
+            else:
+                acc.degrade("%s unavailable: %s: %s" % (n, type(e).__name__, e))
     names = [n for n in names if n in _V]
     tasks = []
     heavy = [n for n in names if not variant(n).small]
